@@ -372,21 +372,23 @@ Proof.
     + apply (proj2 Hs2). apply L1; assumption.
     + apply L2; [apply (proj1 Hs1); assumption|assumption].
 Qed.
-Lemma with_trivia_span_sound {A} P (txt : A -> text) (tp : parser ltrivia) (p : parser A) (mk : option span -> A -> atom) :
+Lemma with_trivia_span_sound_gen {A} P (Q : input -> Prop) (txt : A -> text) (tp : parser ltrivia) (p : parser A) (mk : option span -> A -> atom) :
   (forall sp v, exact_atom (mk sp v) = txt v) -> (forall sp v, span_atom (mk sp v) = sp) ->
   (forall sp v, lossy_atom (mk sp v) = false) -> (forall sp sp' v, atom_ok (mk sp v) -> atom_ok (mk sp' v)) ->
-  sound anyP (fun t => [ATriv t]) tp -> sound anyP (fun v => [mk None v]) p ->
+  (forall st i st' t r, opt tp st i = (st', Ok t r) -> Q r) ->
+  sound anyP (fun t => [ATriv t]) tp -> sound Q (fun v => [mk None v]) p ->
   sound P (fun l => a_triv (triv l) ++ [mk (sp_of l) (data l)]) (with_trivia tp p).
 Proof.
-  intros Hx Hsp Hl Hok Ht Hp. apply sound_any. intros st i st' res E. unfold with_trivia in E.
+  intros Hx Hsp Hl Hok HQ Ht Hp. apply sound_any. intros st i st' res E. unfold with_trivia in E.
   pose proof (opt_sound anyP _ _ Ht) as Ho.
   destruct (opt tp st i) as [st1 [t r| |x]] eqn:Eo; destruct (Ho _ _ _ _ Eo) as [Hs1 Hr1];
     [|inversion E; subst; split; auto..].
+  pose proof (HQ _ _ _ _ _ Eo) as Hq.
   destruct (p st1 r) as [st2 [a r'| |y]] eqn:Ep; destruct (Hp _ _ _ _ Ep) as [Hs2 Hr2]; inversion E; subst;
     (split; [eapply sle_trans; eassumption|]); auto.
   destruct Hr1 as [H1 [O1 L1]]. destruct Hr2 as [H2 [O2 L2]]. cbn [triv data].
   assert (Et : a_opt (fun t => [ATriv t]) t = a_triv t) by (destruct t; reflexivity). rewrite Et in *.
-  destruct (H1 I) as [E1 T1]. destruct (H2 I) as [E2 T2].
+  destruct (H1 I) as [E1 T1]. destruct (H2 Hq) as [E2 T2].
   assert (E2' : rem r = txt a ++ rem r') by (unfold exact in E2; cbn in E2; rewrite app_nil_r, Hx in E2; exact E2).
   assert (T2' : off r' = off r + blen (txt a)).
   { apply tiling_len in T2. unfold exact in T2. cbn in T2. rewrite app_nil_r, Hx in T2. exact T2. }
@@ -399,6 +401,13 @@ Proof.
     + apply (proj2 Hs2). apply L1; assumption.
     + unfold lossy in Hf. cbn in Hf. rewrite Hl in Hf. discriminate.
 Qed.
+
+Lemma with_trivia_span_sound {A} P (txt : A -> text) (tp : parser ltrivia) (p : parser A) (mk : option span -> A -> atom) :
+  (forall sp v, exact_atom (mk sp v) = txt v) -> (forall sp v, span_atom (mk sp v) = sp) ->
+  (forall sp v, lossy_atom (mk sp v) = false) -> (forall sp sp' v, atom_ok (mk sp v) -> atom_ok (mk sp' v)) ->
+  sound anyP (fun t => [ATriv t]) tp -> sound anyP (fun v => [mk None v]) p ->
+  sound P (fun l => a_triv (triv l) ++ [mk (sp_of l) (data l)]) (with_trivia tp p).
+Proof. intros. eapply with_trivia_span_sound_gen with (Q := anyP); eauto. intros; exact I. Qed.
 
 (* a parser followed by State::new_anonymous_scope *)
 Lemma with_scope_sound {A B} P (sa : A -> list atom) (sb : B -> list atom) (p : parser A) (f : A -> nat -> B) :
